@@ -194,7 +194,9 @@ var unqueuedCmdTable = map[string]bool{
 func (ctx *cmdContext) info(cs *clientState) string {
 	if ctx.cs.watchesOtherDb(ctx.dsc.ds) {
 		// the dirty flag needs a second database lock
+		simBeforeLock(&multiDataStoreLock, "multiDataStoreLock")
 		multiDataStoreLock.Lock()
+		defer simAfterUnlock(&multiDataStoreLock, "multiDataStoreLock")
 		defer multiDataStoreLock.Unlock()
 	}
 
